@@ -450,6 +450,41 @@ func runC07(r *vk.Run) {
 			c.Fail(key, text+": "+m, det())
 			return
 		}
+		if c.Idx%3 == 0 {
+			// the same pipeline below a range aggregation (model-free): the metric path runs the stages the log
+			// path runs, so bytes_over_time adds up the lines the log query renders and count_over_time counts
+			// them, per label set (the failure labels of a failing template included)
+			wantBytes, wantCount := map[string]float64{}, map[string]float64{}
+			for _, st := range res.Streams {
+				k := labelKey(st.Labels)
+				for _, e := range st.Entries {
+					wantBytes[k] += float64(len(e.Line))
+					wantCount[k]++
+				}
+			}
+			T := logT0 + int64(n+5)*1e9
+			for fn, want := range map[string]map[string]float64{"bytes_over_time": wantBytes, "count_over_time": wantCount} {
+				mtext := fn + "(" + text + " [1h])"
+				mres, err := evalQuery(&MemQuerier{Recs: ds.Recs, ErrAfter: -1}, mtext, EvalP{Start: T, End: T})
+				c.Eval(1)
+				d := det()
+				d["metric_query"], d["metric_result"] = mtext, mres
+				if err != nil {
+					c.Fail("", fmt.Sprintf("%s failed: %v", mtext, err), d)
+					return
+				}
+				gotM := map[string]float64{}
+				for _, sr := range mres.Series {
+					gotM[labelKey(sr.Labels)] = sr.Points[0].V
+				}
+				if len(gotM) != len(mres.Series) || fmt.Sprint(gotM) != fmt.Sprint(want) {
+					d["expected_series"] = want
+					c.Fail("", fmt.Sprintf("%s: series %v, the log query renders %v", mtext, gotM, want), d)
+					return
+				}
+				c.Count("pipelines_below_a_range_aggregation", 1)
+			}
+		}
 		changed := false
 		for i, e := range model {
 			_ = i
